@@ -353,7 +353,7 @@ pub fn run(args: &Args, out: &mut Out) {
     let cfgs = configs();
     let mut idx = 0u64;
     // bounded-exhaustive: every op sequence of length ≤ depth over a small alphabet, two configs
-    let depth = if args.count > 0 { 0 } else if args.thorough { 6 } else { 4 };
+    let depth = if args.count > 0 { 0 } else if args.thorough { 5 } else { 4 };
     for c in [Cfg { prune: S, hb: S, slack: 0 }, Cfg { prune: 2 * S, hb: S, slack: 1 }] {
         if depth == 0 {
             break;
@@ -381,7 +381,7 @@ pub fn run(args: &Args, out: &mut Out) {
             idx += 1;
         }
     }
-    let n = args.n(600, 40_000);
+    let n = args.n(600, 8_000);
     for i in 0..n {
         let mut rng = Rng::for_case(args.seed, i);
         let (nt, np) = *rng.pick(&[(1usize, 1usize), (2, 2), (3, 4), (1, 3)]);
